@@ -1076,6 +1076,18 @@ func (g *gen) anyNode(action string) *NodeSpec {
 			n.Styles = string(st)
 		}
 		n.Visits[0].Post.Action = action
+		if n.hasFallback() && hasPhase(n, 1) && g.chance(0.4) {
+			// the run succeeds through the fallback: every attempt fails, the fallback recovers
+			b := 1
+			if n.retryable() {
+				b = n.config().Retries
+			}
+			n.Visits[0].Exec = nil
+			for a := 0; a < b; a++ {
+				n.Visits[0].Exec = append(n.Visits[0].Exec, Outcome{Fail: pick(g.r, failKinds)})
+			}
+			n.Visits[0].Fb = &Outcome{Pay: g.pay()}
+		}
 		return n
 	}
 }
@@ -1349,7 +1361,7 @@ func genC20(prop, tier string, r *rand.Rand) *Scn {
 		g.sc.Root = n.ID
 	} else {
 		conc := r.IntN(4)
-		n = g.rootBatch(1+r.IntN(6), budget, wait, conc, false, nil)
+		n = g.rootBatch(1+r.IntN(6), budget, wait, conc, r.IntN(3) == 0, nil) // waits hold per item in either error mode
 		for i := range n.Visits[0].Items {
 			n.Visits[0].Items[i].Exec = g.execScript(budget, false)
 		}
